@@ -1,6 +1,9 @@
 """C13 - data-tree merging and data-source chaining follow the documented algebra."""
+import collections
+import collections.abc
 import copy
 import itertools
+import types
 
 import common
 from common import Check, sx, unsx, hist
@@ -12,9 +15,65 @@ from vinegar.utils.version import version_for_str
 
 
 # ----------------------------------------------------------------------------- real code runners
-def run_merge(a, b, ml, ms):
+class CustomMapping(collections.abc.Mapping):
+    """a Mapping that is not a dict (what a plug-in data source may hand out)"""
+    def __init__(self, d):
+        self._d = dict(d)
+
+    def __getitem__(self, k):
+        return self._d[k]
+
+    def __iter__(self):
+        return iter(self._d)
+
+    def __len__(self):
+        return len(self._d)
+
+
+class CustomSequence(collections.abc.Sequence):
+    """a Sequence that is neither list nor tuple"""
+    def __init__(self, l):
+        self._l = list(l)
+
+    def __getitem__(self, i):
+        return self._l[i]
+
+    def __len__(self):
+        return len(self._l)
+
+
+WRAPS = {
+    "proxy": lambda d: types.MappingProxyType(d),
+    "chainmap": lambda d: collections.ChainMap(d),
+    "userdict": lambda d: collections.UserDict(d),
+    "custom": lambda d: CustomMapping(d),
+    "ordered": lambda d: collections.OrderedDict(d),
+}
+
+
+def wrapify(v, kind, top=True):
+    """the same tree with every nested mapping as another Mapping type, sets frozen, list values under a key as a custom
+    Sequence (the model sees mapping / set / sequence: the classification is by collections.abc)"""
+    if isinstance(v, dict):
+        d = {k: wrapify(x, kind, False) for k, x in v.items()}
+        if top and kind != "all":
+            return d
+        return WRAPS["custom" if kind == "all" else kind](d)
+    if isinstance(v, list):
+        l = [wrapify(x, kind, False) for x in v]
+        return CustomSequence(l) if kind in ("custom", "all") and not any(isinstance(x, (list, dict, CustomSequence)) for x in l) else l
+    if isinstance(v, tuple):
+        return tuple(wrapify(x, kind, False) for x in v)
+    if isinstance(v, set):
+        return frozenset(v) if kind in ("custom", "all", "proxy") else v
+    return v
+
+
+def run_merge(a, b, ml, ms, wrap=None):
     """real merge_data_trees on private copies; returns (result | exception, a afterwards, b afterwards)"""
     a1, b1 = copy.deepcopy(a), copy.deepcopy(b)
+    if wrap:
+        a1, b1 = wrapify(a1, wrap), wrapify(b1, wrap)
     try:
         r = ("ok", DS.merge_data_trees(a1, b1, ml, ms))
     except Exception as e:     # noqa: BLE001 - the class is the observation
@@ -75,11 +134,37 @@ def call_pair(comp, c):
     return gres, fres
 
 
+def build_sources(descs, glog, flog):
+    """recording sources for plain constituents; a real (nested) composite with its own flags for {"comp": ...} - its
+    inner sources write to logs nobody reads (the outer chain sees one source)"""
+    out = []
+    for i, s in enumerate(descs):
+        if "comp" in s:
+            inner = build_sources(s["comp"]["srcs"], [], [])
+            comp = DS.get_composite_data_source(inner, merge_lists=s["comp"]["ml"], merge_sets=s["comp"]["ms"])
+            # the nested composite stays what it is (a _CompositeDataSource object); its two methods are shadowed on the
+            # instance so that the call it receives from the outer chain is noted like for a recording source
+            og, of = comp.get_data, comp.find_system
+
+            def g(system_id, preceding_data, preceding_data_version, _i=i, _og=og):
+                glog.append((_i, system_id, copy.deepcopy(preceding_data), preceding_data_version))
+                return _og(system_id, preceding_data, preceding_data_version)
+
+            def f(lookup_key, lookup_value, _i=i, _of=of):
+                flog.append(_i)
+                return _of(lookup_key, lookup_value)
+            comp.get_data, comp.find_system = g, f
+            out.append(comp)
+        else:
+            r = Recording(i, None, None, glog, flog)
+            r.set(s)
+            out.append(r)
+    return out
+
+
 def run_chain(c):
     glog, flog = [], []
-    srcs = [Recording(i, None, None, glog, flog) for i in range(len(c["srcs"]))]
-    for r, s in zip(srcs, c["srcs"]):
-        r.set(s)
+    srcs = build_sources(c["srcs"], glog, flog)
     comp = DS.get_composite_data_source(srcs, merge_lists=c["ml"], merge_sets=c["ms"])
     gres, fres = call_pair(comp, c)
     return glog, gres, flog, fres
@@ -143,16 +228,33 @@ def run_build(c):
         del R.REGISTRY[key]
 
 
+def u8(s):
+    """version-like strings travel as their UTF-8 bytes (any code point; "|" stays a single byte)"""
+    return s.encode("utf-8") if isinstance(s, str) else s
+
+
+def chain_versions(srcs, cur, t):
+    """follows the chain (into nested composites) and notes every string aggregate_version is expected to hash, with
+    the real hash; returns the resulting version or None when a constituent raises"""
+    for s in srcs:
+        if "comp" in s:
+            nv = chain_versions(s["comp"]["srcs"], cur, t)
+            if nv is None:
+                return None
+        elif s["exc"] is not None:
+            return None
+        else:
+            nv = s["ver"]
+        text = cur + "|" + nv
+        cur = version_for_str(text)
+        t.append([u8(text), u8(cur)])
+    return cur
+
+
 def hash_table(c, t=None):
     """the strings aggregate_version is expected to hash along the chain, with the real hash"""
     t = [] if t is None else t
-    cur = c["pv"]
-    for s in c["srcs"]:
-        if s["exc"] is not None:
-            break
-        text = cur + "|" + s["ver"]
-        cur = version_for_str(text)
-        t.append([text, cur])
+    chain_versions(c["srcs"], c["pv"], t)
     return t
 
 
@@ -162,11 +264,11 @@ def enc_res_tree(r):
 
 
 def enc_gres(r):
-    return [0, [enc(r[1]), r[2]]] if r[0] == "ok" else [1, r[1]]
+    return [0, [enc(r[1]), u8(r[2])]] if r[0] == "ok" else [1, r[1]]
 
 
 def enc_ostr(o):
-    return [] if o is None else [o]
+    return [] if o is None else [u8(o)]
 
 
 def enc_fres(r):
@@ -174,13 +276,15 @@ def enc_fres(r):
 
 
 def enc_src(s):
-    return [[0, [enc(s["data"]), s["ver"]]] if s["exc"] is None else [1, s["exc"]],
+    if "comp" in s:
+        return [9, s["comp"]["ml"], s["comp"]["ms"], [enc_src(x) for x in s["comp"]["srcs"]]]
+    return [[0, [enc(s["data"]), u8(s["ver"])]] if s["exc"] is None else [1, s["exc"]],
             enc_ostr(s["find"]) if s.get("fexc") is None else [s["fexc"]]]
 
 
 def enc_step_obs(o):
     glog, gres, flog, fres = o
-    return [[[i, s, enc(d), v] for (i, s, d, v) in glog], enc_gres(gres), list(flog), enc_fres(fres)]
+    return [[[i, u8(s), enc(d), u8(v)] for (i, s, d, v) in glog], enc_gres(gres), list(flog), enc_fres(fres)]
 
 
 def norm_step(x):
@@ -201,6 +305,13 @@ def norm_obs(kind, x):
     if kind == "merge":
         return [norm_res(x[0]), norm(x[1]), norm(x[2])]
     return norm_step(x)
+
+
+def show_src(s):
+    if "comp" in s:
+        return {"composite": {"merge_lists": s["comp"]["ml"], "merge_sets": s["comp"]["ms"],
+                              "srcs": [show_src(x) for x in s["comp"]["srcs"]]}}
+    return dict(s, data=pyval.show(s["data"]))
 
 
 class C13(Check):
@@ -241,7 +352,7 @@ class C13(Check):
         # one common key, every pair of values up to 3 nodes
         vs = [v for n in (1, 2, 3) for v in pyval.vals(n)]
         pairs = [(x, y) for x in vs for y in vs]
-        pairs = rng.sample(pairs, 4500 if tier == "quick" else 60000)
+        pairs = rng.sample(pairs, 3500 if tier == "quick" else 60000)
         for x, y in pairs:
             for ml, ms in flags:
                 yield {"kind": "merge", "a": {"a": pyval.thaw(x)}, "b": {"a": pyval.thaw(y)}, "ml": ml, "ms": ms}
@@ -260,7 +371,7 @@ class C13(Check):
             for ml, ms in flags:
                 yield {"kind": "assoc", "a": a, "b": b, "c": c, "ml": ml, "ms": ms}
         mid = [pyval.thaw(t) for n in (1, 2, 3) for t in pyval.trees(n)]
-        for i in range(3000 if tier == "quick" else 150000):
+        for i in range(2200 if tier == "quick" else 150000):
             if i % 4 == 0:
                 a, b, c = (pyval.rand_tree(rng, 3, keys=("a", "b", 1)) for _ in range(3))
             else:
@@ -320,6 +431,48 @@ class C13(Check):
                 for i, st in enumerate(steps):
                     st["comp"] = rng.randrange(ncomp)
                 yield {"kind": "chist", "ml": ml, "ms": ms, "steps": steps, "ncomp": ncomp}
+        # Mapping / Set / Sequence types other than dict / set / list / tuple in every nested position (the classification is
+        # by collections.abc): MappingProxyType, ChainMap, UserDict, OrderedDict, custom Mapping, frozenset, custom Sequence
+        wvals = [{"x": 1}, {"x": {"y": 1}}, {}, [1, 2], [2, 3], {1, 2}, {2}, 5, None, (1,), "s"]
+        for kind in ("proxy", "chainmap", "userdict", "custom", "ordered", "all"):
+            for x in wvals:
+                for y in wvals:
+                    for ml, ms in (flags if kind in ("proxy", "custom") else flags[1:2]):
+                        yield {"kind": "merge", "a": {"a": x, "n": {"k": x}}, "b": {"a": y, "n": {"k": y, "z": 1}}, "ml": ml, "ms": ms,
+                               "wrap": kind}
+        for _ in range(300 if tier == "quick" else 6000):
+            ml, ms = rng.choice(flags)
+            yield {"kind": "merge", "a": pyval.rand_tree(rng, 3, keys=("a", "b", 1)), "b": pyval.rand_tree(rng, 3, keys=("a", "b", 1)),
+                   "ml": ml, "ms": ms, "wrap": rng.choice(["proxy", "chainmap", "userdict", "custom", "all"])}
+        # nested composites: a composite (with its OWN merge flags) as a constituent of another composite
+        leafs = [{"data": {"l": [1, 2], "s": {1}, "d": {"p": [1]}}, "ver": "v0", "exc": None, "find": None, "fexc": None},
+                 {"data": {"l": [2, 3], "s": {2}, "d": {"p": [2]}}, "ver": "v1", "exc": None, "find": "one", "fexc": None},
+                 {"data": {"l": [3, 1], "s": {3}, "d": {"p": [1, 3]}}, "ver": "v2", "exc": None, "find": "two", "fexc": None},
+                 {"data": None, "ver": "", "exc": 6, "find": None, "fexc": 6}]
+        shapes = [lambda f, i: [{"comp": dict(f, srcs=[leafs[0], leafs[1]])}, leafs[2]],
+                  lambda f, i: [leafs[0], {"comp": dict(f, srcs=[leafs[1], leafs[2]])}],
+                  lambda f, i: [{"comp": dict(f, srcs=[leafs[0], {"comp": dict(i, srcs=[leafs[1], leafs[2]])}])}, leafs[0]],
+                  lambda f, i: [{"comp": dict(f, srcs=[])}, leafs[1]],
+                  lambda f, i: [{"comp": dict(f, srcs=[leafs[0], leafs[3]])}, leafs[2]],
+                  lambda f, i: [{"comp": dict(f, srcs=[leafs[1]])}, {"comp": dict(i, srcs=[leafs[0], leafs[2]])}]]
+        for shape in shapes:
+            for (oml, oms) in flags:
+                for (iml, ims) in flags:
+                    srcs = shape({"ml": iml, "ms": ims}, {"ml": not iml, "ms": not ims})
+                    yield {"kind": "chain", "ml": oml, "ms": oms, "srcs": srcs, "sys": "s1", "pd": {"l": [0]}, "pv": "p0",
+                           "fk": "mac", "fv": 1}
+        # non-ASCII version strings, among them canonically equivalent but different ones (composed / decomposed)
+        uvers = ["Ren\u00e9", "Rene\u0301", "\u00c5", "A\u030a", "\u212b", "\u00e9", "e\u0301", "v\u00fc|x", "\U0001f600", "\u00df", "ss"]
+        for v1 in uvers:
+            for v2 in uvers:
+                if v1 == v2:
+                    continue
+                base = [{"data": {"a": 1}, "ver": v1, "exc": None, "find": None, "fexc": None},
+                        {"data": {"b": 1}, "ver": "k", "exc": None, "find": None, "fexc": None}]
+                other = [dict(base[0], ver=v2), base[1]]
+                steps = [{"srcs": [dict(x) for x in srcs], "sys": "s\u00e9", "pd": {}, "pv": pv, "fk": "m\u00e4c", "fv": 1}
+                         for srcs in (base, other, base) for pv in ("p\u00e9",)]
+                yield {"kind": "chist", "ml": False, "ms": True, "steps": steps}
         # a failing operation in the middle of a history leaves no trace: call 1 succeeds, then a source changes so that
         # the call fails (a scalar meets a mapping / a flagged list or set meets another kind / the source raises from
         # get_data / from find_system), the identical call is repeated, then the source heals; one or two composites
@@ -408,7 +561,7 @@ class C13(Check):
         if c["kind"] == "assoc":
             return run_assoc(c["a"], c["b"], c["c"], c["ml"], c["ms"])
         if c["kind"] == "merge":
-            return run_merge(c["a"], c["b"], c["ml"], c["ms"])
+            return run_merge(c["a"], c["b"], c["ml"], c["ms"], c.get("wrap"))
         if c["kind"] == "chist":
             return run_chist(c)
         if c["kind"] == "build":
@@ -436,13 +589,13 @@ class C13(Check):
             ht = []
             for st in c["steps"]:
                 hash_table(st, ht)
-            steps = [[[enc_src(s) for s in st["srcs"]], st["sys"], enc(st["pd"]), st["pv"], st["fk"], enc(st["fv"])]
+            steps = [[[enc_src(s) for s in st["srcs"]], u8(st["sys"]), enc(st["pd"]), u8(st["pv"]), u8(st["fk"]), enc(st["fv"])]
                      for st in c["steps"]]
             if c["kind"] == "build":
                 return sx([4, c["ml"], c["ms"], ht, list(c["fails"]), c["fexc"], c["tries"], steps, self.enc_obs(c, o)])
             return sx([3, c["ml"], c["ms"], ht, steps, self.enc_obs(c, o)])
         srcs = [enc_src(s) for s in c["srcs"]]
-        return sx([1, c["ml"], c["ms"], hash_table(c), srcs, c["sys"], enc(c["pd"]), c["pv"], c["fk"], enc(c["fv"]),
+        return sx([1, c["ml"], c["ms"], hash_table(c), srcs, u8(c["sys"]), enc(c["pd"]), u8(c["pv"]), u8(c["fk"]), enc(c["fv"]),
                    self.enc_obs(c, o)])
 
     def evaluate(self, cases):
@@ -451,6 +604,8 @@ class C13(Check):
         out = []
         for (c, o, m, fm, fi, rest) in res:
             # rest[0] = 0: a triple on which the MODEL's two groupings disagree (associativity is checked, not proved)
+            if len(rest) >= 2 and rest[1] == 0:
+                self._outside.add(id(c))
             if c["kind"] == "assoc" and len(rest) >= 2 and rest[1] == 0:
                 self._not_assoc_in_model.add(id(c))
                 fm = fm or ["merge_assoc(model)"]
@@ -458,6 +613,7 @@ class C13(Check):
         return out
 
     _not_assoc_in_model = set()
+    _outside = set()
 
     def canon(self, o):
         # the case kind is recoverable from the observation's arity
@@ -480,21 +636,26 @@ class C13(Check):
             return repr(c)
         return None
 
+    def model_should_hold(self, c):
+        # histories on which the real hash collides are outside the theorem's hypotheses (they are reported through the
+        # implementation's observation: version_changes_with_constituents)
+        return id(c) not in self._outside
+
     def show(self, c):
         if c["kind"] == "assoc":
             return {"kind": "assoc", "a": pyval.show(c["a"]), "b": pyval.show(c["b"]), "c": pyval.show(c["c"]),
                     "merge_lists": c["ml"], "merge_sets": c["ms"]}
         if c["kind"] == "merge":
             return {"kind": "merge", "a": pyval.show(c["a"]), "b": pyval.show(c["b"]),
-                    "merge_lists": c["ml"], "merge_sets": c["ms"]}
+                    "merge_lists": c["ml"], "merge_sets": c["ms"], "nested_container_types": c.get("wrap") or "dict/list/set"}
         if c["kind"] in ("chist", "build"):
             return {"kind": "history on one composite" if c["kind"] == "chist" else "composite built from (name, config) descriptions",
                     "composites": c.get("ncomp", 1), "construction_failures_per_constituent": c.get("fails"),
                     "construction_error": c.get("fexc"), "construction_attempts_allowed": c.get("tries"), "merge_lists": c["ml"], "merge_sets": c["ms"],
-                    "steps": [dict(st, srcs=[dict(s, data=pyval.show(s["data"])) for s in st["srcs"]], pd=pyval.show(st["pd"]))
+                    "steps": [dict(st, srcs=[show_src(s) for s in st["srcs"]], pd=pyval.show(st["pd"]))
                               for st in c["steps"]]}
         d = dict(c)
-        d["srcs"] = [dict(s, data=pyval.show(s["data"])) for s in c["srcs"]]
+        d["srcs"] = [show_src(s) for s in c["srcs"]]
         d["pd"] = pyval.show(c["pd"])
         d["fv"] = pyval.show(c["fv"])
         return d
@@ -542,7 +703,7 @@ class C13(Check):
             if c["pd"]:
                 yield dict(c, pd={})
             for i, s in enumerate(c["srcs"]):
-                if s["exc"] is None and s["data"]:
+                if "comp" not in s and s["exc"] is None and s["data"]:
                     for k in s["data"]:
                         d = {q: w for q, w in s["data"].items() if q != k}
                         yield dict(c, srcs=c["srcs"][:i] + [dict(s, data=d)] + c["srcs"][i + 1:])
